@@ -4,6 +4,7 @@ import FlexiVerif.Model.Bg
 import FlexiVerif.Model.FlwTrace
 import FlexiVerif.Model.WMode
 import FlexiVerif.Model.Builder
+import FlexiVerif.Model.Fanout
 import Driver.Codec
 /-
   Driver for the `Flw` model (C01, C06, C07, C08, C09, C11, C14, C15, C16, C18, C19).
@@ -19,6 +20,7 @@ structure St where
   linkText : String := "-"               -- rendered symlink target (rendered when it was created)
   asyncMode : Bool := false              -- MODE async:..
   asyncDead : Bool := false              -- the async writer thread has been shut down
+  viaFailing : Bool := false             -- VIA addwriter-failing: a failing primary and eight failing additional writers around the file writer
   builderOrder : Nat := 0                -- NOTE builder-order: the order of the builder calls of the logger-driven cases
   mode : Option WMode.WMode := none      -- MODE: the PUBLIC write mode; the buffer capacity the model runs with is derived from it
 
@@ -139,6 +141,11 @@ def apply (s : St) (op : Op) (now : Nat) (fl : Faults) : St × String :=
     else s.linkText
   ({ s with st := st', linkText := lt }, resStr r)
 
+/-- `VIA addwriter-failing`: the primary writer and eight additional writers fail, the file writer
+    (somewhere among the additional ones) returns `fileOk`; the handle reports the first error -/
+def fanoutVerdict (fileOk : Bool) : String :=
+  if (FV.Fanout.callAll ([false] ++ List.replicate 8 false ++ [fileOk])).ok then "ok" else "err"
+
 def step (s : St) (toks : List String) : St × String :=
   match toks with
   | ["SPEC", b, d, sfx, cur, fmt] =>
@@ -162,7 +169,7 @@ def step (s : St) (toks : List String) : St × String :=
     match now.toNat?, parseFaults fl with
     | some now, some fl => apply s .rotate now fl
     | _, _ => (s, "bad-op")
-  | ["VIA", _] => (s, "ok")
+  | ["VIA", v] => ({ s with viaFailing := v == "addwriter-failing" }, "ok")
   | ["LW", b, now] =>
     match hexToBytes b, now.toNat? with
     | some b, some now =>
@@ -173,13 +180,19 @@ def step (s : St) (toks : List String) : St × String :=
   | ["LSHUT"] | ["LSHUT2"] =>      -- LSHUT2: two overlapping shutdown() calls: one shutdown
     let (s', _) := apply s .shutdown 0 {}
     ({ s' with asyncDead := s.asyncDead || s.asyncMode }, "ok")
-  | ["LREOPEN", now] =>     -- LoggerHandle::reopen_output
+  -- LoggerHandle::reopen_output / trigger_rotation: the file writer does its part whatever the other
+  -- writers return (`Fanout.callAll` calls everyone); what the CALLER gets is the fan-out's verdict
+  | ["LREOPEN", now] =>
     match now.toNat? with
-    | some now => apply s .reopen now {}
+    | some now =>
+      let (s', r) := apply s .reopen now {}
+      (s', if s.viaFailing then fanoutVerdict (r == "ok") else r)
     | none => (s, "bad-op")
-  | ["LROT", now] =>        -- LoggerHandle::trigger_rotation
+  | ["LROT", now] =>
     match now.toNat? with
-    | some now => apply s .rotate now {}
+    | some now =>
+      let (s', r) := apply s .rotate now {}
+      (s', if s.viaFailing then fanoutVerdict (r == "ok") else r)
     | none => (s, "bad-op")
   | ["LCLONE"] => (s, "ok")
   -- dropping a clone of the handle shuts the writers down: in the synchronous modes that is a flush
